@@ -132,16 +132,34 @@ def r11_2(ctx, R):
                     v = e[2][0][2][0]
                     ok = v[0] == "proj" and v[1][0] == "call" and v[1][3] == ibb and v[2] == ("@Ready", ".0", "@Some", ".0")
                     ctx.ob("R11.2", b, "forwards-inner-item-unchanged", ok, b.loc(rb), expr_str(v))
-            for rbb, rt, rfn in direct_sites(b, r"alloc::vec::Vec::<.*>::(remove|swap_remove|pop|truncate|clear|drain)$"):
-                fs = vf.get(rbb, frozenset())
-                ok = (dest, "Ready") in fs and ("(%s as Ready).0" % dest, "None") in fs and rfn["def"].endswith("::remove")
-                ctx.ob("R11.2", b, "group-removed-only-when-exhausted@%s" % _site_label(b, rbb), ok, b.loc(rbb), str(sorted(fs)))
+    group_removal_rule(ctx, R, "R11.2", only="merge_unbounded")
     c02.r2_4(ctx, R, c02.r2_3(ctx, R)["INSERT"][0])
     ctx.obs = [o for o in ctx.obs if not o.rule.startswith("R2.3")]
     ctx.rule_texts.pop("R2.3", None)
     ctx.rule("R2.4", "see C02 R2.4 (shared): Ready(None) only behind emptiness")
     c01.r1_7(ctx, R)
     ctx.rule("R1.7", "see C01 R1.7 (shared): every group polled with the caller's cx before Pending")
+
+
+def group_removal_rule(ctx, R, rid, only=None):
+    """A group leaves the vector of an unbounded collection only where its own poll has just reported Ready(None) -- never
+    before it is polled, never while it may still hold children (shared by C11 and C18)."""
+    n = 0
+    for b in group_loop_fns(ctx):
+        if only and only not in b.path:
+            continue
+        fl = ctx.flow(b)
+        vf = variant_facts(b, fl)
+        inner = [(bb, t) for bb, t, fn in b.calls() if fn and not b.is_cleanup(bb)
+                 and re.search(RE_STREAM_POLL_NEXT, fn["def"]) and callee_body(ctx.facts, fn) is not None]
+        for ibb, it in inner:
+            dest = place_str(it["dest"])
+            for rbb, rt, rfn in direct_sites(b, r"alloc::vec::Vec::<.*>::(remove|swap_remove|pop|truncate|clear|drain)$"):
+                n += 1
+                fs = vf.get(rbb, frozenset())
+                ok = (dest, "Ready") in fs and ("(%s as Ready).0" % dest, "None") in fs and rfn["def"].endswith("::remove")
+                ctx.ob(rid, b, "group-removed-only-when-exhausted@%s" % _site_label(b, rbb), ok, b.loc(rbb), str(sorted(fs)))
+    return n
 
 
 def run(ctx):
